@@ -37,6 +37,11 @@ func (nv *NodeVisitor) Visit(node ast.Node) ast.Visitor {
 	log := zerolog.Ctx(nv.ctx)
 
 	switch n := node.(type) {
+	case *ast.FuncDecl, *ast.FuncLit:
+		// Types declared inside a function body are not package-level
+		// declarations: they can't be mocked and must not be looked up in
+		// the package scope.
+		return nil
 	case *ast.TypeSpec:
 		log := log.With().
 			Str("node-name", n.Name.Name).
